@@ -177,4 +177,14 @@ theorem C14_source_skeletons_2 :
     Gen.Skel.FileBackupClient_FetchSnapshot = Expected.Skel.FileBackupClient_FetchSnapshot :=
   ⟨rfl, rfl, rfl, rfl, rfl, rfl⟩
 
+/-- the LiteFS Cloud client (lfsc/backup_client.go), driven against a local server on the same
+    service state as the file client: requests, the EPOSMISMATCH mapping, the high-water-mark header -/
+theorem C14_source_skeletons_lfsc :
+    Gen.Skel.BackupClient_PosMap = Expected.Skel.BackupClient_PosMap ∧
+    Gen.Skel.BackupClient_WriteTx = Expected.Skel.BackupClient_WriteTx ∧
+    Gen.Skel.BackupClient_FetchSnapshot = Expected.Skel.BackupClient_FetchSnapshot ∧
+    Gen.Skel.BackupClient_doRequest = Expected.Skel.BackupClient_doRequest ∧
+    Gen.Skel.fn_readResponseError = Expected.Skel.fn_readResponseError :=
+  ⟨rfl, rfl, rfl, rfl, rfl⟩
+
 end LiteFSVerif.C14
